@@ -15,6 +15,7 @@ import (
 	"os"
 	"path/filepath"
 	"runtime/debug"
+	"runtime/pprof"
 	"sort"
 	"strconv"
 	"strings"
@@ -473,6 +474,7 @@ var (
 	watchStart time.Time
 	watchCase  any
 	watchH     *H
+	watchLimit time.Duration
 	watchTest  string
 	watchOnce  sync.Once
 )
@@ -521,11 +523,16 @@ func noteCrashCase(h *H, test string, c any) {
 }
 
 // Begin marks the start of a case of a totality property.
-func (h *H) Begin(test string, c any) {
+func (h *H) Begin(test string, c any) { h.BeginLimit(test, c, 0) }
+
+// BeginLimit is Begin with its own limit (0 = $VERIF_HANG_S, default 30 s): stress rounds that normally take
+// milliseconds but may be starved when the machine is busy get a wider one. A round that is still not over
+// then is reported as a hang (deadlock) together with a dump of all goroutines.
+func (h *H) BeginLimit(test string, c any, limit time.Duration) {
 	watchOnce.Do(func() { go watchdog() })
 	noteCrashCase(h, test, c)
 	watchMu.Lock()
-	watchStart, watchCase, watchH, watchTest = time.Now(), c, h, test
+	watchStart, watchCase, watchH, watchTest, watchLimit = time.Now(), c, h, test, limit
 	watchMu.Unlock()
 }
 
@@ -540,15 +547,19 @@ func (h *H) End() {
 }
 
 func watchdog() {
-	limit := time.Duration(EnvInt("VERIF_HANG_S", 30)) * time.Second
+	deflt := time.Duration(EnvInt("VERIF_HANG_S", 30)) * time.Second
 	for {
 		time.Sleep(500 * time.Millisecond)
 		watchMu.Lock()
-		h, c, test, start := watchH, watchCase, watchTest, watchStart
+		h, c, test, start, limit := watchH, watchCase, watchTest, watchStart, watchLimit
 		watchMu.Unlock()
+		if limit == 0 {
+			limit = deflt
+		}
 		if h != nil && time.Since(start) > limit {
 			p := h.SaveReplay(test, c, fmt.Sprintf("case did not finish within %v (hang)", limit))
 			fmt.Printf("VERIF-VIOLATION property=%s case=%s\ncase did not finish within %v\n", h.ID, p, limit)
+			_ = pprof.Lookup("goroutine").WriteTo(os.Stdout, 1)
 			Flush()
 			os.Exit(1)
 		}
